@@ -49,6 +49,9 @@ CLAIMS = {
     "C10": ("other",
             "G: every CIF item the reader needs is written under the same name; SHELX atom labels (all 103 symbols x label forms) never collide with a keyword. P: an ATOM line written with the real format string and a POSCAR row written with the real f-string read back through the real readers on symbolic values (coordinates within half a unit of the last digit, SFAC index -> element); F: SFAC numbering and POSCAR element blocks. Space-group identification after a round trip is C11 composed with C02. B: whole-file CIF / RES / POSCAR round trips through Crystal.save/load on seeded crystals of 60 settings (all 530 thorough), built in memory or loaded from a file first.",
             "CIF text layer (C15), CPython parsing, numpy.fromstring model; whole documents only bounded"),
+    "C20": ("other",
+            "P: the front end quasirandom calls the right kernel with the right arguments on all four paths; the Sobol and Korobov kernels, extracted mechanically from the .pyx text, verified with symbolic seeds/bounds (loop-invariant VCs, BV32): every array access in bounds, every shift below 32, single and batch results equal one shared spec term u2d(X_d(seed-1))/2^32 (so batch row = single point for all seeds and results depend on (seed, dimension) only), range [0,1). L: Gray-code step, closed form of the recurrence, direction-number shape, unit-triangular => stratification for m = 1..12. G: Joe-Kuo table rows for dimensions <= 1000, libm log2 ceiling, and on the compiled binary the complete finite domains of the statement (first 2^12 points x 1000 dimensions vs reference, stratification for every m <= 12, (0,m,2)-nets, single = batch for 4096 seeds). B: seeded windows up to 10^6 through the front end. The kernels that run are the compiled ones, tied to the verified text by conformance runs: level 'other'.",
+            "Cython/gcc semantics of the extracted text, .so corresponds to the .pyx (embedded-source comparison + run-time conformance), floats as reals in the Korobov part, libm log"),
 }
 
 NA_PENDING = "check not built yet in this session (see DESIGN.md section 8 build order)"
